@@ -159,6 +159,43 @@ class Program:
         return seen
 
 
+def reachable_blocks_known(body, start):
+    """Blocks reachable from `start` when boolean temporaries assigned a constant on the way are remembered: `matches!(x, P if g)`
+    and `a && b` compile to "set a flag, join, switch on the flag" — from the block that set it to `true` only the `otherwise`
+    target of that later switch is reachable.  (Constant propagation of bool locals along paths; everything else is followed.)"""
+    import re
+    seen, out = set(), set()
+    st = [(start, ())]
+    while st:
+        x, env = st.pop()
+        if (x, env) in seen or len(seen) > 20000:
+            continue
+        seen.add((x, env))
+        out.add(x)
+        e = dict(env)
+        blk = body['blocks'][x]
+        for stmt in blk['stmts']:
+            m = re.match(r'(_\d+) = const (true|false)$', stmt)
+            if m:
+                e[m.group(1)] = m.group(2) == 'true'
+                continue
+            m = re.match(r'(_\d+) = ', stmt)
+            if m:
+                e.pop(m.group(1), None)
+        m = re.match(r'switchInt\((?:move|copy) (_\d+)\) -> \[0: bb(\d+), otherwise: bb(\d+)\]', blk['term'])
+        if m and m.group(1) in e:
+            nxt = [int(m.group(3)) if e[m.group(1)] else int(m.group(2))]
+        else:
+            nxt = list(body['succ'][x])
+            dm = re.match(r'(_\d+) = ', blk['term'])
+            if dm:
+                e.pop(dm.group(1), None)
+        env2 = tuple(sorted(e.items()))
+        for y in nxt:
+            st.append((y, env2))
+    return out
+
+
 class CtxReach:
     """Reachability with receiver-type context for trait default bodies: a call `self.m()` inside a provided
     trait method, analysed for implementing type T, goes to T's override of m (or the provided body, again for T)."""
